@@ -15,7 +15,9 @@ written to coq/gen/ScopeCfg.v (token level, rustlex).
   object.rs    fn close_upvalues  : predicate `v >= index_addr`
   compiler.rs  fn add_upvalue     : dedup test compares index AND is_local
   compiler.rs  fn emit_scope_end  : chooses CloseUpvalue when `is_captured`, else Pop
-The last four are the shapes Upvalues.v / ScopeComp.v transliterate; `shapes_known = true` is a side
+  compiler.rs  fn mark_initialised / mark_last_initialised : the only field assigned is `depth` (is_captured survives)
+  vm.rs        fn close_upvalue_impl : close_upvalues(stack_size - 1) with the size taken BEFORE the pop
+The last seven are the shapes Upvalues.v / ScopeComp.v transliterate; `shapes_known = true` is a side
 condition of props/C06.v (fail closed: an unrecognised shape makes it false).
 
 Stand-alone use (scratch worktrees): VERIF_REPO=/tmp/wt translate_c06.py"""
@@ -107,6 +109,17 @@ def facts():
     e = fn_body(comp, "emit_scope_end")
     if not (has_seq(e, ["if", "local", ".", "is_captured", "{", "OpCode", "::", "CloseUpvalue", "}", "else", "{", "OpCode", "::", "Pop", "}"])):
         unknown.append("emit_scope_end: `if local.is_captured { CloseUpvalue } else { Pop }` not found")
+    # mark_initialised / mark_last_initialised (Compiler): the ONLY field assigned is `depth` (is_captured set by a capture inside
+    # the variable's own initialiser - a local fn that refers to itself - survives the second marking by define_variable)
+    for name in ("mark_initialised", "mark_last_initialised"):
+        mb = fn_body(comp, name)
+        if mb.count("=") != 1 or not has_seq(mb, [".", "depth", "="]) or "is_captured" in mb:
+            unknown.append("%s: assigns something other than `depth`" % name)
+    # close_upvalue_impl: close_upvalues(stack_size - 1) with the stack size taken BEFORE the pop
+    cu = fn_body(vm, "close_upvalue_impl")
+    i_sz, i_cl, i_pop = first(cu, "stack_size"), first(cu, "close_upvalues"), first(cu, "pop")
+    if not (0 <= i_sz < i_cl < i_pop and has_seq(cu, ["stack_size", "-", "1"])):
+        unknown.append("close_upvalue_impl: `let stack_size = ..; close_upvalues(stack_size - 1); pop()` (in this order) not found")
     return f, unknown
 
 
